@@ -412,6 +412,8 @@ type engine struct {
 	lastSeq int
 	closed  bool
 
+	prevSegFirstV int
+
 	readers []*keptReader
 	held    []heldPlaylist
 }
@@ -663,7 +665,9 @@ func (e *engine) judgeSegment(seq int, ts []byte) *failure {
 		prevVideoArrival = e.srcV[e.curV-1].arrival
 	}
 	keyStart, sawVideo := false, false
+	segFirstV := e.prevSegFirstV // first source video frame of the previous segment
 	var firstVideoSrc *srcFrame
+	firstVideoIdx := 0
 	firstAudioPTS := int64(-1)
 	for _, p := range r.All {
 		switch p.PID {
@@ -713,7 +717,7 @@ func (e *engine) judgeSegment(seq int, ts []byte) *failure {
 				return fail("frame-dts", "segment %d: video frame %d has DTS %v, source %d (pts %d)", seq, e.curV-1, deref(p.DTS), src.dts, src.pts)
 			}
 			if firstVideo {
-				firstVideo, sawVideo, firstVideoSrc = false, true, src
+				firstVideo, sawVideo, firstVideoSrc, firstVideoIdx = false, true, src, e.curV-1
 				// "begins its video with a key frame preceded by SPS/PPS"
 				if got[0]&0x1f == 5 {
 					si, pi := -1, -1
@@ -762,6 +766,9 @@ func (e *engine) judgeSegment(seq int, ts []byte) *failure {
 		}
 	}
 
+	if sawVideo {
+		e.prevSegFirstV = firstVideoIdx
+	}
 	// bookkeeping for the classification of the one known defect
 	switch {
 	case seq == 1:
@@ -781,10 +788,14 @@ func (e *engine) judgeSegment(seq int, ts []byte) *failure {
 		// overflow"). Exactly that class is skipped when listed; anything else fails.
 		trigger := int64(-1)
 		if open, ok := e.openPTS[seq-1]; ok && e.c.Fragment > 0 {
+			reach := int64(-1) // latest stamp the previous segment had seen when the audio frame came
+			for k := segFirstV; k < firstVideoIdx; k++ {
+				reach = max(reach, e.srcV[k].pts)
+			}
 			for k := range e.srcA {
 				a := &e.srcA[k]
 				if a.arrival > prevVideoArrival && a.arrival < firstVideoSrc.arrival &&
-					a.pts-open >= int64(2*e.c.Fragment)*90000-45000 {
+					max(reach, a.pts)-open >= int64(2*e.c.Fragment)*90000-45000 {
 					trigger = a.pts
 					break
 				}
